@@ -26,6 +26,7 @@ type c02Case struct {
 	KeyIDs                                       map[string]string
 	NoPubKeyDir                                  bool
 	KeyDir                                       string `json:",omitempty"` // layout of the registered-key directory ("" = <name>.pub)
+	Algos                                        []int  `json:",omitempty"` // one requested CA key algorithm per consecutive request on the same handler (default: Algo twice)
 }
 
 var c02SeenKeys = map[string]string{}
@@ -81,7 +82,12 @@ func c02Run(c *ev.Ctx, k c02Case) {
 			want[n] = id
 		}
 	}
-	for round := 0; round < 2; round++ {
+	algos := k.Algos
+	if len(algos) == 0 {
+		algos = []int{k.Algo, k.Algo}
+	}
+	for round, algo := range algos {
+		k.Algo = algo
 		p := defaultParams(k.LogName)
 		p.ReqUser, p.ReqHost, p.ClientIP, p.TransID = k.ReqUser, k.ReqHost, k.ClientIP, k.TransID+fmt.Sprint(round)
 		p.Attrs.Username, p.Attrs.Hostname = k.ReqUser, k.ReqHost
@@ -108,7 +114,10 @@ func c02Run(c *ev.Ctx, k c02Case) {
 			if errType(err) != "HandlerConfErr" {
 				c.Violation("C02:unconfigured-slot-wrong-error:"+errType(err), fmt.Sprintf("expected a handler configuration error, got %s (%v)", errType(err), err), k)
 			}
-			return
+			if len(k.Algos) == 0 {
+				return
+			}
+			continue // a sequence goes on after a refusal: the same long-lived handler serves the next request
 		}
 		if err != nil || len(e.ca.Reqs) != caBefore+1 {
 			c.Violation("C02:configured-request-fails:"+errType(err), fmt.Sprintf("run failed (%v) or CA calls=%d for a configured algorithm", err, len(e.ca.Reqs)-caBefore), k)
@@ -178,7 +187,7 @@ func c02Run(c *ev.Ctx, k c02Case) {
 
 func checkC02(c *ev.Ctx) {
 	defer cleanupScratch()
-	c.Rule("real gensign.Run + regular.Handler, honest agent, recording CA; the signing request received by the CA is compared with a reference record built from server-side inputs: strings {plain, JSON metacharacters, <>&, non-ASCII, 200 chars, empty, literal JSON/HTML escape texts (\\u0026, \\\\u003c, &lt;, \\n), U+2028/2029, control characters} for login/user/host/IP/transaction id varied one field at a time and jointly; 10 login names that interact with the key-file lookup ('.pub' suffixes, dots, case) x directory layouts {<name>.pub, bare <name>, both} x CA algorithm{0,1,2,3,4,99}; handler configurations: validity{1,3600,43200,315360000,2^32+43200} x every non-colliding subset (size<=3; thorough <=4) of key_identifiers keys {rsa,RSA,Ecdsa,ed25519,default,unknown,1,3,99} x algorithm; two consecutive requests per case. non-trivial = request signed and compared; distinct by case")
+	c.Rule("real gensign.Run + regular.Handler, honest agent, recording CA; the signing request received by the CA is compared with a reference record built from server-side inputs: strings {plain, JSON metacharacters, <>&, non-ASCII, 200 chars, empty, literal JSON/HTML escape texts (\\u0026, \\\\u003c, &lt;, \\n), U+2028/2029, control characters} for login/user/host/IP/transaction id varied one field at a time and jointly; 10 login names that interact with the key-file lookup ('.pub' suffixes, dots, case) x directory layouts {<name>.pub, bare <name>, both} x CA algorithm{0,1,2,3,4,99}; handler configurations: validity{1,3600,43200,315360000,2^32+43200} x every non-colliding subset (size<=3; thorough <=4) of key_identifiers keys {rsa,RSA,Ecdsa,ed25519,default,unknown,1,3,99} x algorithm; two consecutive requests per case; every sequence of 1..4 requests over 5 algorithms (3 configured, 2 not) on one long-lived handler. non-trivial = request signed and compared; distinct by case")
 	c.Assume("key_identifiers names are normalised case-insensitively or numerically (reference table in the harness)")
 	if c.ReplayCase != nil {
 		var k c02Case
@@ -276,6 +285,28 @@ func checkC02(c *ev.Ctx) {
 	nk := base
 	nk.NoPubKeyDir = true
 	c02Run(c, nk)
+	// sequences of requests on ONE long-lived handler: every sequence of length 1..4 over {two configured algorithms, two
+	// unconfigured ones}; each request is judged on its own (a refusal must not change what the next request gets)
+	{
+		seqIDs := map[string]string{"rsa": "slot-rsa", "ed25519": "slot-ed", "99": "slot-99"}
+		al := []int{1, 4, 7, 3, 99}
+		var rec func(cur []int)
+		rec = func(cur []int) {
+			if len(cur) > 0 {
+				k := base
+				k.KeyIDs, k.Algos = seqIDs, append([]int{}, cur...)
+				c02Run(c, k)
+				n++
+			}
+			if len(cur) == 4 {
+				return
+			}
+			for _, a := range al {
+				rec(append(cur, a))
+			}
+		}
+		rec(nil)
+	}
 	// login names that interact with the key-file lookup (suffixes, dots, case), under every directory layout in which the
 	// user can still authenticate: the principal is the login name, whatever file held the key
 	for _, ln := range []string{"alice", "alice.pub", "alice.pub.pub", "al.ice", "alice.PUB", "alice.", ".alice", "pub", "alice.pubx", "Alice"} {
